@@ -9,7 +9,7 @@ from sx.sched import Task, Yield, run_all
 PROPERTY = "C09"
 BOUNDS = {
     "quick": "one listener task flushing B<=2 parked commands (keys (a,1),(a,2), each present or absent) for a woken node, S=1..2 concurrent send tasks with symbolic keys over children {1,2} (overlapping and disjoint), every interleaving at the transport-write suspension points (write suspends before and after handing over the line); then one wake alone (quiescence); versions 2.0 and 2.2; node id sym [10,99]",
-    "thorough": "B<=3 keys over children {1,2,3}, S<=3 senders, versions 2.0, 2.1, 2.2",
+    "thorough": "S<=2 senders with B<=3 keys over children {1,2,3}; S=3 senders with B<=2 keys; versions 2.0, 2.1, 2.2",
 }
 REALISED = []
 STUBS = ["RecTransport.write suspends twice (before and after recording the line)", "sx.sched: cooperative scheduler, next task = symbolic index", "symbolic maps", "__repr__ -> constant"]
@@ -30,9 +30,12 @@ def partitions(tier):
     parts = []
     for v in (("2.0", "2.2") if q else ("2.0", "2.1", "2.2")):
         for s in ((1, 2) if q else (1, 2, 3)):
-            for first in range(2 if q else 3):
-                parts.append({"name": "race-%s-s%d-k%d" % (v, s, first + 1), "fn": "sym_race", "version": v, "senders": s, "nkeys": 2 if q else 3,
-                              "firstkey": first + 1, "budget": 600 if q else 3600, "cost": 2 + s * s * s})
+            nkeys = 2 if (q or s == 3) else 3
+            for first in range(nkeys):
+                for second in (range(nkeys) if s == 3 else (None,)):
+                    parts.append({"name": "race-%s-s%d-k%d%s" % (v, s, first + 1, "" if second is None else "-%d" % (second + 1)), "fn": "sym_race", "version": v,
+                                  "senders": s, "nkeys": nkeys, "firstkey": first + 1, "secondkey": None if second is None else second + 1,
+                                  "budget": 600 if q else 3600, "cost": 2 + s * s * s})
     return parts
 
 
@@ -71,7 +74,7 @@ def sym_race(inp, part):
     tasks = [Task("listener", agen.__anext__())]
     keys = []
     for i in range(part["senders"]):
-        ch = part["firstkey"] if i == 0 else 1 + inp.pick("key%d" % i, nk)
+        ch = part["firstkey"] if i == 0 else (part["secondkey"] if (i == 1 and part.get("secondkey")) else 1 + inp.pick("key%d" % i, nk))
         keys.append(ch)
         tasks.append(Task("send%d" % i, w.gw.send(Message(a, ch, 1, 0, 2, "s%d" % i))))
 
